@@ -8,7 +8,7 @@ LEVEL = "fault_enumeration"
 RULE = ("fault injection at gpyreg.GP.fit entry (LinAlgError at chosen invocation indices, counted on the faulted run itself): an "
         "unfaulted reference run gives the number F of fit invocations (initial training + every local refit attempt); plans: a single "
         "fault at each k in 0..F-1 (quick: a seeded subset), runs of 2, 3, 4 consecutive faults starting at each k, scattered sets of "
-        "2-4 indices, and 'all attempts of one refit fail' (10+ consecutive); modes det / auto / declared / he (noise vector present) x "
+        "2-4 indices (the statement's quantifier; a WHOLE refit failing = 10 consecutive faults is outside it and not injected); modes det / auto / declared / he (noise vector present) x "
         "geometries. Oracle: optimize() returns, and on that faulted run the run-level monitors of C01 (bounds), C03 (budget, count, "
         "message) and C04/C05 (truthful result) all hold. distinct_nontrivial = distinct (mode, plan shape, fit kind initial|local) "
         "cells in which a fault was actually DELIVERED (measured), weighted by distinct k")
@@ -48,7 +48,6 @@ def run_case(case):
     for L in (2, 3, 4):
         k = int(rs.randint(0, max(1, F)))
         plans.append((f"run{L}", list(range(k, k + L))))
-    plans.append(("run12", list(range(int(rs.randint(1, max(2, F))), int(rs.randint(1, max(2, F))) + 12))))
     plans.append(("initial-burst", [0, 1, 2]))
     for _ in range(max(1, case["nplans"] // 4)):
         plans.append(("scattered", sorted(set(int(x) for x in rs.randint(0, F + 3, size=rs.randint(2, 5))))))
